@@ -461,13 +461,16 @@ fn check_width(idx: usize, case: &Value) -> Option<Value> {
     // are byte offsets for some parts of a parser and character counts for others)
     let prefix = if idx % 3 == 1 { "\u{e9}\u{4e16}|" } else { "" };
     // what the spec is attached to (WidthWriters.tla: the producer): the message formatter itself, a group around it, the
-    // conditional group that is active in this build (its body is the text) - and, for the empty text, the conditional
+    // conditional group that is active in this build (its body is the text), a group around the text as literal characters of
+    // the pattern - and, for the empty text, the conditional
     // group that is inactive in this build around a body that is not empty (its text is nothing: all padding)
     let (active, inactive) = if cfg!(debug_assertions) { ("D", "R") } else { ("R", "D") };
     let (open, close) = match (idx / 3) % 4 {
         _ if chars.is_empty() && idx % 2 == 0 => (format!("{{{}(zz{{m}}", inactive), ")"),
         1 => ("{({m}".to_string(), ")"),
         2 => (format!("{{{}({{m}}", active), ")"),
+        // the text as literal characters of the pattern inside a group (none of them is a syntax character)
+        3 if !chars.is_empty() => (format!("{{({}", chars.iter().collect::<String>()), ")"),
         _ => ("{m".to_string(), ""),
     };
     let mut pattern = format!("{}{}{}", prefix, open, close);
